@@ -274,13 +274,29 @@ Print Assumptions C03_hcl_refuted.
     re-created database to the original.  Missing: the other direction of the diff, and the inspected
     schemas outside [supported] (C01's refuted witnesses: PRIMARY KEY (b, a), PRIMARY KEY (a DESC), ...
     -- the same inputs the oracle reports as C03-pk-order / C03-pk-desc). *)
-From Atlas Require Import Sqlite.EngineModel Sqlite.InspectModel Sqlite.ConvergeSupported Sqlite.ExportSqlProofs.
+From Atlas Require Import Sqlite.EngineModel Sqlite.InspectModel Sqlite.ConvergeSupported Sqlite.ExportDump Sqlite.ExportSqlProofs.
 Theorem C03_sql_partial :
   forall nm d, supported empty_db (inspect d) = true ->
   exists p d', plan_dump (inspect d) = Some p /\ exec_all empty_db (plan_stmts p) = Ok d' /\
     sqlite_schema_diff no_skip (inspect_schema nm d') (inspect_schema nm d) = Some [].
 Proof. exact sql_export_faithful. Qed.
 Print Assumptions C03_sql_partial.
+
+(** 5b. Which tables the SQL export creates: exactly the inspected tables, in inspection order -- for
+    EVERY inspected schema, whatever its foreign keys point to.  A foreign key names its parent
+    ([f_reftable]); when the parent was dropped (foreign_keys off / legacy_alter_table), never existed or
+    lost the referenced column, SQLite keeps the clause and the inspector hangs a name-only stub on
+    ForeignKey.RefTable that is not a member of Schema.Tables.  ChangesToRealm walks Schema.Tables only,
+    so the plan holds one CREATE TABLE per inspected table and nothing for the stub ([created_tables] =
+    the names of the plan's CREATE TABLE statements).  Tied on every loop of the stages loop and cli
+    (in process and `atlas schema inspect --format '{{ sql . }}'`): the table list read from SQLite's own
+    catalogue against the CREATE TABLE statements of the real export ([dump_creates] = the plan model on
+    table skeletons).  That such an export executes and re-creates the dangling key is the oracle's part
+    (SQLite resolves parents lazily). *)
+Theorem C03_sql_dump_tables :
+  forall B p, plan_dump B = Some p -> created_tables p = map x_name B.
+Proof. exact dump_creates_inspected. Qed.
+Print Assumptions C03_sql_dump_tables.
 
 Example C03_sql_nonvacuous : supported empty_db (inspect w_db) = true /\ List.length (inspect w_db) = 1%nat.
 Proof. exact w_db_supported. Qed.
